@@ -58,6 +58,11 @@ def check(run):
     private(R)
     once(R)
     writeonce(R)
+    from . import C03
+    R.rule('C11.frames', 'every frame put on the wire is self-delimiting (length encoding arms partition 0..2^63-1 with the '
+                         'right markers), so that frames of different senders can be told apart', 8)
+    with R.as_rule('C11.frames'):
+        C03.lenenc(R)
     from . import C06
     with R.as_rule('C11.wireorder'):
         C06.wiring(R)        # the shared deflate context is configured as negotiated (reset flags / windows not crossed)
